@@ -371,6 +371,10 @@ func runC08Case(seed int64, idx int, tier string) *c08Result {
 		}()
 		writeCount.Add(1)
 		phase.Store(phIdle)
+		if err == muxrun.ErrWriteStuck {
+			fail("writer-stuck", "%s", h.Hangs[len(h.Hangs)-1])
+			break
+		}
 		if err != nil {
 			werrs++
 		}
